@@ -799,10 +799,13 @@ class DirectoryRecord:
                 mid = (lo + hi) // 2
                 rr = self.rr_children[mid].rock_ridge
                 if rr is not None:
-                    if rr.name() < child.rock_ridge.name():
-                        lo = mid + 1
-                    else:
+                    # Behind any entries of the same name, so that the
+                    # records of a multi-extent file stay in order and a
+                    # lookup by name finds the first one.
+                    if child.rock_ridge.name() < rr.name():
                         hi = mid
+                    else:
+                        lo = mid + 1
                 else:
                     raise pycdlibexception.PyCdlibInternalError('Expected all children to have Rock Ridge, but one did not')
             rr_index = lo
